@@ -1,12 +1,20 @@
 CHECK = dict(
     category="model_checking",
-    text="Ledger.tla supplies the chain and mempool histories (all bounded block trees with menu transactions, all delivery orders, "
-         "pool submissions before/after confirmation); TLC checks the ledger invariants on them and every sampled transition is "
-         "replayed on a real node that then proposes a block for its own slot (real proposal.NewBlockTemplate, real signature) which "
-         "must be accepted by ProcessBlock and become the best block, including reward-paying heights.",
+    text="Two engines. (1) Ledger.tla supplies chain and mempool histories (all bounded block trees with menu transactions, all delivery "
+         "orders, pool submissions before/after confirmation); every sampled transition is replayed on a real node that then proposes a "
+         "block for its own slot (real proposal.NewBlockTemplate, real signature) which must be accepted by ProcessBlock and become the "
+         "best block, including reward-paying heights. (2) Proposer.tla specifies what a template built from a pool may contain (a "
+         "selection that applies to the ledger of the best block within the block gas budget: no child without its parent, no two spends "
+         "of one coin, budget respected); TLC checks these invariants on a nondeterministic builder and enumerates pools of 50 "
+         "transactions around the budget (33..35 transactions of ~293,000 gas; 34 fill a block) with chained, forked and conflicting "
+         "transactions placed relative to the first transaction that no longer fits and to the proposer's batches of 16; each pool is "
+         "loaded into a real mempool with real ~293 KB transactions, the node builds, signs and processes its own block, and "
+         "ProposerJudge.tla judges the recorded template.",
     design_ref="DESIGN.md §6 C38",
-    note="The specification does not predict the template's content, it states the property (accepted and best); menu of 7 transaction "
-         "kinds, no gas-heavy transactions; paths with a stored non-applying branch are skipped (known C11 finding).",
-    technique="TLC-generated histories from the TLA+ ledger spec replayed into the real Chain + proposer; acceptance of the proposed block checked",
+    note="Part 1 does not predict the template's content (menu of 7 transaction kinds; paths with a stored non-applying branch are skipped, "
+         "known C11 finding). Part 2 accepts any template the specification allows (arrival order is reported, not demanded); one input per "
+         "transaction, children arrive after their parents, gas scaled 1 unit = one maximal transaction.",
+    technique="TLC-generated histories / pool shapes replayed into the real Chain + mempool + proposer; acceptance of the proposed block "
+              "checked and the recorded template judged by TLC against the property-level specification",
     engine="node-replay",
 )
